@@ -156,6 +156,8 @@ class Run:
             importlib.import_module(m)
         timeout = self.prop.get("timeout_s", 20) * (3 if self.tier == "thorough" else 1)
         for fspec in self.prop["functions"]:
+            if fspec.get("bounded_only"):
+                continue
             obs, rep = self.generate(fspec)
             self.obligations.extend(obs)
         t = time.time()
@@ -179,7 +181,7 @@ class Run:
             seen.add(key)
             if any(v for v in self.violations if fspec["fn"] in str(v.get("obligations"))):
                 continue
-            spec = self.search_spec(fspec, budget=budget)
+            spec = self.search_spec(fspec, budget=fspec.get("budget", budget) * (1 if self.tier == "quick" else 10))
             res = rt_call("crosscheck", spec)
             if res.get("status") == "ok":
                 self.bounded.append({"what": f"run-time contract of {fspec['fn']} [{fspec.get('contract_key', '')}] on the real function",
